@@ -1,8 +1,15 @@
 //go:build verif
 
 // Contracts for the deductive checker in /verif (comment-only; compiled only with -tags verif).
+// C05 / C07: OFF records reach the asynchronous writer whole, with the 0.3.0 record layout written
+// by WriteRecord (the layout comment at the top of off.go predates the pretriggerDelta field).
 
 package off
+
+//@ ufunc dims0(m *mat.Dense) int
+//@ extern func (*gonum.org/v1/gonum/mat.Dense).Dims
+//@   pure
+//@   ensures r == dims0(m) && r >= 0 && c >= 0
 
 //@ func (Writer).Close
 //@   trusted
@@ -10,6 +17,64 @@ package off
 //@ func (Writer).Flush
 //@   trusted
 //@   modifies nothing
+
+//@ func NewArrayJsoner
+//@   props C05
+//@   requires array != nil
+//@   ensures result != nil && fresh(result) && result.Rows == dims0(array)
+//@   modifies nothing
+
+// NewWriter: the header fields are the caller's values; no file yet.
 //@ func NewWriter
-//@   trusted
-//@   ensures result != nil && fresh(result)
+//@   props C05
+//@   requires Projectors != nil && Basis != nil
+//@   ensures isnew: result != nil && fresh(result) && result.file == nil && result.writer == nil && !result.headerWritten && result.recordsWritten == 0
+//@   ensures header: result.ChannelIndex == ChannelIndex && result.ChannelName == ChannelName && result.ChannelNumberMatchingName == ChannelNumberMatchingName
+//@        && result.MaxPresamples == MaxPresamples && result.MaxSamples == MaxSamples && result.FramePeriodSeconds == FramePeriodSeconds
+//@        && result.NumberOfBases == dims0(Projectors) && result.ModelInfo.projectors == Projectors && result.ModelInfo.basis == Basis
+//@        && result.ReadoutInfo == ReadoutInfo && result.PixelInfo == pixelInfo && result.fileName == fileName
+//@   modifies nothing
+
+//@ func (*Writer).HeaderWritten
+//@   props C05
+//@   ensures result == w.headerWritten
+//@   modifies nothing
+
+//@ func (*Writer).CreateFile
+//@   props C05
+//@   ensures once: old(w.file) != nil ==> result != nil && unchanged(w.file, w.writer)
+//@   ensures created: result == nil ==> w.file != nil && w.writer != nil && fresh(w.writer) && w.writer.n == 0 && w.writer.items == 0 && WInv(w.writer)
+//@   ensures works: !IOFaults() && old(w.file) == nil ==> result == nil
+//@   modifies w.file, w.writer
+
+// OFF record: int32 samples, int32 presamples, int64 frame count, int64 timestamp (ns), float32
+// pre-trigger mean, pre-trigger delta, residual std dev, then the float32 coefficients.
+//@ func (*Writer).WriteRecord
+//@   props C05 C07
+//@   requires w.writer != nil && allocated(w.writer) && WInv(w.writer)
+//@   ensures wrongnum: len(data) != w.NumberOfBases ==> result != nil
+//@   ensures rejected: result != nil ==> w.writer.n == old(w.writer.n) && w.recordsWritten == old(w.recordsWritten)
+//@   ensures kept: forall i int :: {w.writer.acc[i]} i < old(w.writer.n) ==> w.writer.acc[i] == old(w.writer.acc[i])
+//@   ensures inv: WInv(w.writer) && (forall j int :: {w.writer.mark[j]} j <= old(w.writer.items) ==> w.writer.mark[j] == old(w.writer.mark[j]))
+//@   ensures item: (result == nil ==> w.writer.items == old(w.writer.items) + 1) && (result != nil ==> w.writer.items == old(w.writer.items))
+//@   ensures whole: result == nil ==> w.writer.n == old(w.writer.n) + 36 + 4 * len(data) && w.recordsWritten == old(w.recordsWritten) + 1 && len(data) == w.NumberOfBases
+//@   ensures f0: result == nil ==> (forall i int :: {w.writer.acc[i]} old(w.writer.n) <= i && i < old(w.writer.n) + 4 ==> w.writer.acc[i] == lebyte(recordSamples, i - old(w.writer.n)))
+//@   ensures f1: result == nil ==> (forall i int :: {w.writer.acc[i]} old(w.writer.n) + 4 <= i && i < old(w.writer.n) + 8 ==> w.writer.acc[i] == lebyte(recordPreSamples, i - old(w.writer.n) - 4))
+//@   ensures f2: result == nil ==> (forall i int :: {w.writer.acc[i]} old(w.writer.n) + 8 <= i && i < old(w.writer.n) + 16 ==> w.writer.acc[i] == lebyte(framecount, i - old(w.writer.n) - 8))
+//@   ensures f3: result == nil ==> (forall i int :: {w.writer.acc[i]} old(w.writer.n) + 16 <= i && i < old(w.writer.n) + 24 ==> w.writer.acc[i] == lebyte(timestamp, i - old(w.writer.n) - 16))
+//@   ensures f4: result == nil ==> (forall i int :: {w.writer.acc[i]} old(w.writer.n) + 24 <= i && i < old(w.writer.n) + 28 ==> w.writer.acc[i] == lebyte(f32bits(pretriggerMean), i - old(w.writer.n) - 24))
+//@   ensures f5: result == nil ==> (forall i int :: {w.writer.acc[i]} old(w.writer.n) + 28 <= i && i < old(w.writer.n) + 32 ==> w.writer.acc[i] == lebyte(f32bits(pretriggerDelta), i - old(w.writer.n) - 28))
+//@   ensures f6: result == nil ==> (forall i int :: {w.writer.acc[i]} old(w.writer.n) + 32 <= i && i < old(w.writer.n) + 36 ==> w.writer.acc[i] == lebyte(f32bits(residualStdDev), i - old(w.writer.n) - 32))
+//@   ensures coefs: result == nil ==> (forall i int :: {w.writer.acc[i]} old(w.writer.n) + 36 <= i && i < w.writer.n ==> w.writer.acc[i] == lebyte(f32bits(old(at(data, data.off + (i - w.writer.n - 36) / 4))), (i - old(w.writer.n) - 36) % 4))
+//@   ensures roomy: !QueueFull() && len(data) == w.NumberOfBases ==> result == nil
+//@   modifies w.recordsWritten, w.writer.n, w.writer.acc, w.writer.items, w.writer.mark
+
+//@ func (*Writer).WriteHeader
+//@   props C05
+//@   requires w.writer != nil && allocated(w.writer) && WInv(w.writer) && w.ModelInfo.projectors != nil && w.ModelInfo.basis != nil
+//@   ensures inv: WInv(w.writer) && (forall j int :: {w.writer.mark[j]} j <= old(w.writer.items) ==> w.writer.mark[j] == old(w.writer.mark[j]))
+//@   ensures kept: forall i int :: {w.writer.acc[i]} i < old(w.writer.n) ==> w.writer.acc[i] == old(w.writer.acc[i])
+//@   ensures once: old(w.headerWritten) ==> result != nil && w.writer.items == old(w.writer.items)
+//@   ensures four: result == nil ==> w.headerWritten && w.writer.items == old(w.writer.items) + 4
+//@   modifies w.headerWritten, w.writer.n, w.writer.acc, w.writer.items, w.writer.mark
+//@   assume matrices: forall a int :: {stable(a)} stable(a) ## the projector and basis matrices queued by reference are never mutated in place; json.MarshalIndent returns a fresh buffer
